@@ -49,7 +49,8 @@ ASSUMPTIONS = [
     "armi reports for the block at its current place (the factor itself is trusted here; it belongs to C02/C13)",
     "not asserted: block names after an exchange (a block keeps its name), volume-integrated block parameters (rescaled "
     "on/off symmetry lines as Assembly.moveTo documents), numMoves/lastLocationLabel bookkeeping, the order of the pool",
-    "Core.add is only used on free locations with a locator of the core grid, removeAssembly only on core members, the "
+    "Core.add is only used on free locations (locator of the core grid, of an equal grid, detached, or none with the "
+    "assembly's own locator), a purged assembly is put back only where it was, removeAssembly only on core members, the "
     "two operands of a swap are distinct and a cascade has no repeated member (what the callers in fuelHandlers.py pass)",
 ]
 
@@ -77,7 +78,13 @@ def _op():
             "none": st.one_of(st.just([]), st.lists(st.integers(0, 5), min_size=0, max_size=2)),
             "match": st.sampled_from([True, False]),  # prefer partners with the same stationary layout (else any partner)
             "charged": st.sampled_from([True, False]),  # prefer an assembly charged earlier by a discharge swap as first operand
-            "src": st.sampled_from(["pool", "fresh"]),  # incoming assembly: blueprints or pool (if not empty)
+            # incoming assembly: pool (if not empty), blueprints, or (Core.add only) an assembly purged earlier whose old
+            # location is free again: put back with a plain core.add(a), the assembly keeping its (detached) locator
+            "src": st.sampled_from(["pool", "fresh", "purged"]),
+            # how Core.add learns the location: a locator of the core grid; no locator argument, the assembly's own
+            # spatialLocator set beforehand (uniformMesh converter pattern); a detached copy; a locator of an equal but
+            # different grid object ("transfer spatialLocator to Core one")
+            "how": st.sampled_from(["locator", "plain", "detached", "othergrid"]),
             "design": st.integers(0, 2),
             "loc": idx,  # free location for add
             "discharge": st.sampled_from([True, False]),
@@ -203,6 +210,7 @@ class _Model:
         self.charged_by_dswap = set()
         self.cells = []  # every location of the modelled domain within the generated number of rings
         self.templates = set()  # id() of the blueprints' template assemblies and their blocks
+        self.last = {}  # aid -> core location it was taken from
 
     # -- geometry ----------------------------------------------------------------------------
     def factor(self, ij):
@@ -281,6 +289,7 @@ class _Model:
     def take_out(self, aid, to_pool):
         ij = self.where.pop(aid)
         del self.at[ij]
+        self.last[aid] = ij
         (self.pool if to_pool else self.purged).append(aid)
         return ij
 
@@ -289,6 +298,8 @@ class _Model:
             self.pool.remove(aid)
         if aid in self.limbo:
             self.limbo.remove(aid)
+        if aid in self.purged:
+            self.purged.remove(aid)
         self.at[ij] = aid
         self.where[aid] = ij
 
@@ -651,6 +662,8 @@ def _execute(case, exclude):
     touched_charged = False
     nsteps = len(case["program"])
 
+    other_grid = [None]
+
     def fresh(design):
         a = core.createAssemblyOfType(assemType=design["name"], cs=cs)
         aid = M.register(a, design)
@@ -681,7 +694,7 @@ def _execute(case, exclude):
                 y = _pick(pool, op["b"])
                 return (x, y, M.layout(y) != lay, "pool")
 
-            if op["src"] == "pool" and M.pool:
+            if op["src"] != "fresh" and M.pool:
                 plan = from_pool()
             else:
                 designs = list(spec["designs"])
@@ -811,18 +824,38 @@ def _execute(case, exclude):
                 out.label("skip:no-free-location")
                 continue
             ij = _pick(sorted(free, key=_dist), op["loc"])
-            if op["src"] == "pool" and M.pool:
+            how = op.get("how", "locator")
+            back = [p for p in M.purged if M.last[p] in free] if op["src"] == "purged" else []
+            if back:
+                # remove and put back: the purged assembly still carries the (detached) locator of its old place
+                aid = _pick(back, op["b"])
+                ij = M.last[aid]
+                source, how = "purged", "own-locator"
+            elif op["src"] == "pool" and M.pool:
                 aid = _pick(M.pool, op["b"])
                 source = "pool"
                 sfp.remove(M.A[aid])  # as dischargeSwap does before Core.add
             else:
                 aid = fresh(_pick(spec["designs"], op["design"]))
                 source = "fresh"
-            desc = "Core.add(%s from %s, %s)" % (M.name(aid), source, ij)
+            desc = "Core.add(%s from %s, %s, %s)" % (M.name(aid), source, ij, how)
             touched.add(aid)
-            core.add(M.A[aid], core.spatialGrid[ij[0], ij[1], 0])
+            here = core.spatialGrid[ij[0], ij[1], 0]
+            if how == "own-locator":
+                core.add(M.A[aid])
+            elif how == "plain":
+                M.A[aid].spatialLocator = here
+                core.add(M.A[aid])
+            elif how == "detached":
+                core.add(M.A[aid], here.detachedCopy())
+            elif how == "othergrid":
+                if other_grid[0] is None:
+                    other_grid[0] = bp.gridDesigns["core"].construct()  # the grid a second reactor of this input has
+                core.add(M.A[aid], other_grid[0][ij[0], ij[1], 0])
+            else:
+                core.add(M.A[aid], here)
             M.put_in(aid, ij)
-            out.label("op:add", "add:" + source, "pos:" + M.position_class(ij))
+            out.label("op:add", "add:" + source, "add-how:" + how, "pos:" + M.position_class(ij))
 
         elif kind == "remove":
             if len(cands) <= 1:
@@ -879,7 +912,8 @@ PARTS = [
               "1-3 blocks, grid plates/reflectors at any axial position or forced to the bottom / bottom+top, SFP explicit or default) x "
               "start state {as built, 1 in 4: written to a Database and loaded back} x "
               "trackAssems on/off x stationaryBlockFlags {none, grid plate, grid plate+reflector} x program of <= 14 operations drawn "
-              "from a random subset of {swapAssemblies, swapCascade(2-5 members), dischargeSwap(fresh|pool), Core.add(fresh|pool) at a "
+              "from a random subset of {swapAssemblies, swapCascade(2-5 members), dischargeSwap(fresh|pool), Core.add(fresh|pool|purged "
+              "put back; locator of the core grid / of an equal grid / detached / none) at a "
               "free location, removeAssembly(discharge True|False)}, operands modulo the valid targets (centre first), cascade lists "
               "optionally with None entries, pool optionally pre-populated through the sfp grid contents (also with tracking off); oracle = "
               "location/pool/purged/block-stack model compared after every step (children, locators, childrenByLocator, string "
